@@ -472,6 +472,26 @@ pub fn run(tier: Tier) -> i32 {
     ];
     let st = run_space(prev_docs.len(), |i| verify(prev_docs[i].1, &[("e", prev_docs[i].2)], prev_docs[i].0, 1));
     rep.absorb("previous-element", st);
+    // second review round (reference box a = 10,20 30x40)
+    let a = r##"<rect id="a" xy="10 20" wh="30 40"/>"##;
+    let round2: Vec<(&str, String, BBox)> = vec![
+        ("points/decimal-edge-offset", format!("{a}<polyline id=\"e\" points=\"#a@t:2.5 #a@b:-2.5\"/>"), BBox::new(12.5, 20., 37.5, 60.)),
+        ("points/decimal-percent-offset", format!("{a}<polyline id=\"e\" points=\"#a@l:12.5% #a@r:87.5%\"/>"), BBox::new(10., 25., 40., 55.)),
+        ("one-dimension/line-H-width", format!("{a}<line id=\"e\" xy=\"#a|H 5\" width=\"10\"/>"), BBox::new(-5., 40., 5., 40.)),
+        ("one-dimension/line-V-height", format!("{a}<line id=\"e\" xy=\"#a|V 5\" height=\"10\"/>"), BBox::new(25., 5., 25., 15.)),
+        ("one-dimension/line-v-width", format!("{a}<line id=\"e\" xy=\"#a|v 5\" width=\"10\"/>"), BBox::new(20., 65., 30., 65.)),
+        ("alternative-size/circle-rxy", format!("{a}<circle id=\"e\" xy=\"#a|h\" rxy=\"3\"/>"), BBox::new(40., 37., 46., 43.)),
+        ("alternative-size/circle-width", format!("{a}<circle id=\"e\" xy=\"#a|h\" width=\"6\"/>"), BBox::new(40., 37., 46., 43.)),
+        ("alternative-size/circle-V-width", format!("{a}<circle id=\"e\" xy=\"#a|V\" width=\"6\"/>"), BBox::new(22., 14., 28., 20.)),
+        ("alternative-size/ellipse-r", format!("{a}<ellipse id=\"e\" xy=\"#a|h\" r=\"3\"/>"), BBox::new(40., 37., 46., 43.)),
+        ("text-anchor/cxy", format!("{a}<text id=\"e\" cxy=\"#a@c\"><tspan>x</tspan></text>"), BBox::new(25., 40., 25., 40.)),
+        ("text-anchor/xy-loc", format!("{a}<text id=\"e\" xy=\"#a@br\" xy-loc=\"c\"><tspan>x</tspan></text>"), BBox::new(40., 60., 40., 60.)),
+        ("resize/ellipse-dwh", format!("{a}<ellipse id=\"e\" cxy=\"#a\" wh=\"#a\" dwh=\"2 4\"/>"), BBox::new(9., 18., 41., 62.)),
+        ("resize/circle-dwh", format!("{a}<circle id=\"e\" cxy=\"#a\" wh=\"20\" dwh=\"4\"/>"), BBox::new(13., 28., 37., 52.)),
+    ];
+    let st = run_space(round2.len(), |i| verify(&round2[i].1, &[("e", round2[i].2)], round2[i].0, 1));
+    rep.absorb("second-round", st);
+    rep.set("also_round2", json!("Second review round: decimal and percent edge offsets inside points, dirspec placement of lines given one length and of circles / ellipses sized by rxy / width / r, <text> anchored by cxy and xy-loc, dw / dh on circles and ellipses."));
     rep.assume("dependent elements are rect, circle and ellipse (their output geometry is directly observable); box/point/group/line occur as references only; relative sizes are asserted for rect dependents");
     rep.finish()
 }
